@@ -903,11 +903,60 @@ def run(chk):
         if order is not ORDER_WITNESS[1]:
             order_pairs.append((idx - 1, idx, True, ORDER_WITNESS[0], list(ORDER_WITNESS[1:])))
 
+    def ring_singles():
+        """ CIRCULAR record without shared genes and without overlapping cores (no hybrid, no interleaved candidate):
+            protocluster X with a wide extent over the origin (it sorts first), two to four small protoclusters inside
+            the PRE-origin part of X's extent that do not overlap each other (they sort last), zero to two inside its
+            post-origin part, and one to three that overlap nothing of X, between them in start order.  All of those
+            that overlap X form ONE neighbouring group with it, wherever they sort. """
+        grid = rng.choice([1, 5, 10])
+        units = rng.randint(90, 150)
+        n = units * grid
+
+        def to_parts(iv):
+            s, e = iv
+            if s >= 0:
+                return [(s * grid, e * grid, 1)]
+            if e <= 0:
+                return [((units + s) * grid, (units + e) * grid, 1)]
+            return [((units + s) * grid, n, 1), (0, e * grid, 1)]
+        pre, post = rng.randint(14, 30), rng.randint(3, 12)
+        xc = rng.choice([-2, -1, 0, 1])
+        protos = [[(-pre, post), (xc, xc + 1) if rng.random() < 0.6 else (-1, 1)]]
+        pos = -pre + rng.choice([-2, -1, 0, 1])                 # the first small one may stick out of X's extent
+        for _ in range(rng.choice([2, 2, 3, 4])):
+            width = rng.choice([2, 3, 4])
+            if pos + width >= xc - 1 or len(protos) >= MAX_PROTOS - 2:
+                break
+            protos.append([(pos, pos + width), (pos + 1, pos + 2)])
+            pos += width + rng.choice([0, 1, 2])                # touching or apart, never overlapping
+        pos = max(xc + 3, 2)
+        for _ in range(rng.choice([0, 1, 2])):
+            if pos + 2 >= post or len(protos) >= MAX_PROTOS - 1:
+                break
+            protos.append([(pos, pos + 2), (pos, pos + 1)])
+            pos += 3
+        pos = post + rng.choice([0, 1, 4])                       # touching X's end or clear of it: no overlap with X
+        for _ in range(rng.choice([1, 1, 2, 3])):
+            width = rng.choice([2, 3, 5])
+            if pos + width >= units - pre - 4 or len(protos) >= MAX_PROTOS:
+                break
+            protos.append([(pos, pos + width), (pos + 1, pos + 2)])
+            pos += width + rng.choice([1, 3, 10])
+        order = list(range(len(protos)))
+        rng.shuffle(order)
+        renum = {old: new for new, old in enumerate(order)}
+        out = sorted((renum[i], to_parts(ext), to_parts(core), renum[i]) for i, (ext, core) in enumerate(protos))
+        return {"n": n, "circular": True, "genes": [], "protos": out}
+
     for i in range(total):
         r = rng.random()
         wrapping = r < 0.25
         if i < len(CORPUS):
             config = CORPUS[i]
+        elif i % 12 == 10:
+            config = ring_singles()
+            chk.count("ring_singles_configurations")
         elif i % 3 == 2:
             config = gen.layout()
             chk.count("layout_configurations")
